@@ -153,3 +153,40 @@ Proof.
               ltac:(lra) ltac:(lra) ltac:(lra) ltac:(lra) H) as [E _].
   lra.
 Qed.
+
+(* ------------------------------------------------------------------ the budget does not matter *)
+(* a loop that finishes within one budget finishes with the same value within any other budget
+   that lets it finish: the value is the loop's, not the budget's *)
+Lemma pole_loop_det f : forall f' p q q',
+  pole_loop f p = Ok q -> pole_loop f' p = Ok q' -> q = q'.
+Proof.
+  induction f as [|f IH]; intros f' p q q'; cbn [pole_loop].
+  - destruct (lat_ok (snd p)) eqn:E; [|discriminate].
+    intros H1 H2. rewrite pole_loop_fix in H2 by exact E. congruence.
+  - destruct (lat_ok (snd p)) eqn:E.
+    + intros H1 H2. rewrite pole_loop_fix in H2 by exact E. congruence.
+    + intros H1 H2. destruct f' as [|f']; cbn [pole_loop] in H2; rewrite E in H2; [discriminate|].
+      eapply IH; eassumption.
+Qed.
+
+Lemma wrap_loop_det f : forall f' l r r',
+  wrap_loop f l = Ok r -> wrap_loop f' l = Ok r' -> r = r'.
+Proof.
+  induction f as [|f IH]; intros f' l r r'; cbn [wrap_loop].
+  - destruct (lon_ok l) eqn:E; [|discriminate].
+    intros H1 H2. rewrite wrap_loop_fix in H2 by exact E. congruence.
+  - destruct (lon_ok l) eqn:E.
+    + intros H1 H2. rewrite wrap_loop_fix in H2 by exact E. congruence.
+    + intros H1 H2. destruct f' as [|f']; cbn [wrap_loop] in H2; rewrite E in H2; [discriminate|].
+      eapply IH; eassumption.
+Qed.
+
+Lemma norm_fuel_irrelevant lon lat f1 f2 lon1 lat1 lon2 :
+  pole_loop f1 (lon, lat) = Ok (lon1, lat1) -> wrap_loop f2 lon1 = Ok lon2 ->
+  norm lon lat = Ok (canon180 lon2, lat1).
+Proof.
+  intros H1 H2. destruct (norm_total lon lat) as [[a b] E]. rewrite E.
+  destruct (norm_inv _ _ _ _ E) as (l1 & l2 & G1 & G2 & ->).
+  pose proof (pole_loop_det _ _ _ _ _ H1 G1) as X. injection X as <- <-.
+  pose proof (wrap_loop_det _ _ _ _ _ H2 G2) as <-. reflexivity.
+Qed.
